@@ -104,6 +104,40 @@ def corr_mean(c: dict, py: dict, consts: dict) -> list[str]:
     return [] if rel_close(L, Lm, 1e-9) else [f"structure_factor_mean: implementation {L!r} vs generated model {Lm!r}"]
 
 
+def model_peak(f, py: dict, consts: dict, smoothing=None) -> float:
+    """get_length_scale(method='structure_factor_maximum') recomputed from the model lines (ls_peak_flags,
+    ls_default_smoothing, ls_peak_est_offset, ls_peak_windows, ls_peak_bracket, ls_peak) with the oracles numpy / SmoothData1D
+    (nw_model) / scipy.optimize.minimize_scalar: peak_loop of Proofs/C17.v in binary64"""
+    from scipy import optimize
+    data = f.data
+    disc = np.asarray(f.grid.discretization, dtype=float)
+    mk, msf = sc.model_raw(data, disc, py, consts)
+    on, auto, nowave, az = consts["ls_peak_flags"]
+    k, sf = sc.model_tail(mk, msf, on, auto, nowave, az, 0.0, float(f.grid.cuboid.size.max()), [], py, consts)
+    sigma = smoothing if smoothing is not None else \
+        py["ls_default_smoothing"](typical_discretization=f.grid.typical_discretization)
+    off = consts["ls_peak_est_offset"]
+    est = k[off + np.argmax(sf[off:])]
+    L = math.nan
+    for w in consts["ls_peak_windows"]:
+        br = [py[f"ls_peak_bracket_{j}"](max_est=est, window_size=w) for j in range(3)]
+        try:
+            res = optimize.minimize_scalar(lambda x: -sc.nw_model(sigma, k, sf, x).reshape(()), bracket=br)
+        except Exception:  # noqa: BLE001  (the implementation maps every exception to nan and tries the next window)
+            L = math.nan
+        else:
+            L = float(py["ls_peak"](x=res.x))
+            break
+    return L
+
+
+def corr_peak(f, py: dict, consts: dict, inp: dict, **kw) -> list:
+    L = gls(f, PEAK, **kw)
+    Lm = model_peak(f, py, consts, **kw)
+    same = (math.isnan(L) and math.isnan(Lm)) or rel_close(L, Lm, 1e-9)
+    return [] if same else [(f"structure_factor_maximum: implementation {L!r} vs model {Lm!r}", inp)]
+
+
 # ---------------------------------------------------------------------------------------------
 # (B) droplet_detection
 # ---------------------------------------------------------------------------------------------
@@ -140,6 +174,9 @@ def prop_count(c: dict, rng: random.Random) -> list[dict]:
     if n == 0:
         return []  # outside the property text (n >= 1)
     L = gls(f, "droplet_detection")
+    if not math.isfinite(L):
+        return [{"what": "droplet_detection is not finite although droplets are detected", "method": "droplet_detection",
+                 "input": sc.canon(c), "droplets": n, "got": repr(L)}]
     bounds = f.grid.axes_bounds
     V = 1.0
     for lo, hi in bounds:
@@ -335,7 +372,7 @@ def prop_peak_wave(w: dict, decades, ctx, known_lines: list, corr: list | None =
             if (off and float(np.max(X2[off])) > 1e-12 * tot) or \
                     not all(abs(float(X2[m]) - w["amp"] ** 2 * N / 4) <= 1e-9 * w["amp"] ** 2 * N for m in (q, N - q)):
                 if corr is not None:
-                    corr.append(f"oracle-spec:fftn premise dft_cosine fails on {json.dumps(inp0(w, h))}")
+                    corr.append(("oracle-spec:fftn premise dft_cosine fails", inp0(w, h)))
             if not rel_close(est, sc.TWO_PI * q / (N * h), 1e-12):
                 fails.append({"what": "start estimate of the peak search is not the true wave number of the plane wave",
                               "method": PEAK, "input": inp0(w, h), "got": est, "want": sc.TWO_PI * q / (N * h)})
@@ -358,8 +395,8 @@ def prop_peak_wave(w: dict, decades, ctx, known_lines: list, corr: list | None =
         else:
             if math.isfinite(r):
                 if corr is not None:
-                    corr.append(f"peak loop: every bracket of the model curve is invalid but the implementation returned "
-                                f"{r / bin_:.3f} bins on {json.dumps(inp)}")
+                    corr.append((f"peak loop: every bracket of the model curve is invalid but the implementation returned "
+                                 f"{r / bin_:.3f} bins", inp))
                 break
             if ctx is not None:
                 ctx.count("peak_explicit_sigma", "invalid bracket (zero mode dominates): nan as modelled")
@@ -452,7 +489,7 @@ def prop_peak_field(c: dict, rng: random.Random, known_lines: list) -> list[dict
 
 
 # ---------------------------------------------------------------------------------------------
-def _sample_goals(ctx, rng, py, consts):
+def _sample_goals(ctx, rng, py, consts, corr):
     from droplets.image_analysis import get_structure_factor, locate_droplets
     goals = []
     for _ in range(ctx.scale(3, 8)):
@@ -481,6 +518,10 @@ def _sample_goals(ctx, rng, py, consts):
         if n == 0:
             continue
         L = gls(f, "droplet_detection")
+        if not math.isfinite(L):  # no Coq literal: a model / implementation disagreement with this input
+            corr.append((f"droplet_detection: implementation returned {L!r} although locate_droplets finds {n} droplet(s)",
+                         sc.canon(c)))
+            continue
         bl = "; ".join(f"({vlib.rlit(float(lo))}, {vlib.rlit(float(hi))})" for lo, hi in f.grid.axes_bounds)
         d = len(c["shape"])
         goals.append((f"ls_count@{c['shape']} n={n}",
@@ -495,18 +536,23 @@ def _sample_goals(ctx, rng, py, consts):
 def check(ctx: vlib.Ctx) -> int:
     sc.quiet()
     rng = random.Random(ctx.seed)
-    ok = vlib.prove(ctx, ["Proofs/C17.vo", "Model/Samples.vo"], gens=["Gen_spectrum"])
-    ctx.tie.append("translator (Gen_spectrum regenerated from /repo: the three length-scale formulas, call flags, default "
-                   "smoothing, bracket / window lines) + correspondence on get_length_scale")
-    py, consts = sc.load_models(ctx)
-    gen_ok = sc.translator_ok(ctx) and py is not None
+    ok, fresh = vlib.prove_with_fallback(ctx, ["Proofs/C17.vo", "Model/Samples.vo"], gens=["Gen_spectrum"])
+    fell_back = bool(ctx.extra.get("translator_fell_back"))
+    ctx.tie.append(("translator (Gen_spectrum regenerated from the current source: the three length-scale formulas, call "
+                    "flags, default smoothing, bracket / window lines), validated by interval sample goals and the "
+                    "correspondence on get_length_scale") if fresh else
+                   ("correspondence on get_length_scale (implementation vs the GOLDEN model of Gen_spectrum: interval sample "
+                    "goals inside Coq against implementation values; moment and peak pipelines recomputed from the golden "
+                    "lines per case)"))
+    py, consts = sc.load_models(ctx, fresh)
+    gen_ok = py is not None
     if not gen_ok:
-        ctx.broken.append("translator: Gen_spectrum could not be generated from the current image_analysis.py")
+        ctx.broken.append("model of Gen_spectrum unavailable on the Python side: " + "; ".join(ctx.notes[-1:]))
+    corr_bad: list = []  # (message, input) of model / implementation disagreements
     if gen_ok and ok:
-        _sample_goals(ctx, rng, py, consts)
-    boost = 2 if ctx.broken else 1
+        _sample_goals(ctx, rng, py, consts, corr_bad)
+    boost = 2 if (ctx.broken or fell_back) else 1
     failures: list[dict] = []
-    corr_bad: list[str] = []
     known_f7: list[str] = []
     # (A) moment method
     for i in range(boost * ctx.scale(60, 400)):
@@ -521,7 +567,7 @@ def check(ctx: vlib.Ctx) -> int:
             ctx.sample({"method": "structure_factor_mean", **sc.canon(c)})
         failures.extend(prop_mean(c, rng))
         if gen_ok:
-            corr_bad.extend(corr_mean(c, py, consts))
+            corr_bad.extend((m_, sc.canon(c)) for m_ in corr_mean(c, py, consts))
     # (B) droplet counting
     for i in range(boost * ctx.scale(40, 250)):
         c = gen_emulsion_case(rng)
@@ -545,6 +591,12 @@ def check(ctx: vlib.Ctx) -> int:
         if i == 0:
             ctx.sample({"method": PEAK, **sc.canon(w), "spacings": [10.0 ** e for e in decades]})
         failures.extend(prop_peak_wave(w, decades, ctx, known_f7, corr_bad))
+        if gen_ok:
+            h_ = 10.0 ** decades[i % len(decades)]
+            corr_bad.extend(corr_peak(wave_field(w, h_), py, consts, inp0(w, h_)))
+            bin_w = wave_truth_bins(w)[1]
+            corr_bad.extend(corr_peak(wave_field(w, h_), py, consts, {**inp0(w, h_), "smoothing": "0.3 bins"},
+                                      smoothing=0.3 * sc.TWO_PI * bin_w / h_))
     for i in range(boost * ctx.scale(20, 120)):
         c = sc.gen_case(rng, kind=rng.choice(["noise", "waves", "droplets"]), min_n=4)
         if float(np.ptp(sc.build(c))) == 0.0:
@@ -553,6 +605,8 @@ def check(ctx: vlib.Ctx) -> int:
         ctx.count("method", PEAK + "/field")
         ctx.count("dim", len(c["shape"]))
         ctx.count("kind", c["kind"])
+        if gen_ok:
+            corr_bad.extend(corr_peak(sc.make_field(c), py, consts, sc.canon(c)))
         r = prop_peak_field(c, rng, known_f7)
         if r and "skip" in r[0]:
             ctx.count("peak_field_skipped", r[0]["skip"])
@@ -563,7 +617,12 @@ def check(ctx: vlib.Ctx) -> int:
                                  + (f" (+{len(known_f7) - 1} more inputs of this class)" if len(known_f7) > 1 else ""))
     ctx.extra["known_finding_inputs"] = known_f7[:20]
     if corr_bad:
-        ctx.broken.append(f"correspondence get_length_scale: {corr_bad[0]} (+{len(corr_bad) - 1} more)")
+        ctx.broken.append(f"correspondence get_length_scale ({'generated' if fresh else 'golden'} model): {corr_bad[0][0]} on "
+                          f"{json.dumps(corr_bad[0][1])[:300]} (+{len(corr_bad) - 1} more)")
+        if fell_back:  # the correspondence is the tie: its disagreement is the violation, with that input
+            m0, c0 = min(corr_bad, key=lambda mc: int(np.prod(mc[1]["shape"])))
+            ctx.violations.append({"what": f"get_length_scale differs from the golden model: {m0}", "input": c0,
+                                   "found": True, "broken": ctx.broken[:3]})
     seen = set()
     for f in sorted(failures, key=lambda f: int(np.prod(f["input"]["shape"]))):
         if f["what"] in seen or len(seen) >= 3:
